@@ -554,7 +554,7 @@ def scale_hot_keys(rng, kind, nops=1400):
     return lines
 
 
-def scale_mass_expiry(rng, kind, n):
+def scale_mass_expiry(rng, kind, n, both):
     """n entries written with one short ttl in two waves, the clock moves past the first wave's (or both
     waves') deadline, then single calls - first of all a lookup of the entry at the far end of the
     expiry order, so that a clean-up that stops early is seen by the call itself"""
@@ -568,7 +568,6 @@ def scale_mass_expiry(rng, kind, n):
     lines.append("tick %d" % (R * ttl - 4))
     for k in range(n1 + 1, n + 1):
         lines.append("ins %d %d 3 %d" % (k, 1 if kind == "utset" else rng.randint(1, 90), ttl))
-    both = rng.random() < 0.5
     lines.append("tick %d" % ((R * ttl) if both else 4 + rng.choice([0, 1])))
     last_dead = n if both else n1
     tail = ["find %d 0" % last_dead, "find %d 0" % n, "findr 0 0 3 %d %d %d" % (last_dead, 1, n)]
@@ -585,8 +584,9 @@ def scale_long_ranges(rng, kind, cap=85):
     keys = 105
     c = _scale_cfg(rng, kind, cap, keys, ttl=4000)
     lines = [cfg_line(c)]
-    plan = [(3, 0, 70), (1, 0, 35), (2, 0, 70), (3, 1, 35), (1, 0, 70), (3, 3 if kind == "fifo" else 0, 35)]
+    plan = [(3, 0, 70), (1, 0, 35), (2, 0, 70), (3, 1, 35), (3, 3 if kind == "fifo" else 0, 35)]
     rng.shuffle(plan)
+    plan = [(1, 0, 70)] + plan          # first a big batch of new keys in a random-access container
     for a, var, m in plan:
         ks = [rng.randint(1, 80) for _i in range(m)]
         lines.append("insr %d %d %d %s" % (a, var, m, " ".join("%d %d 4000" % (k, 1 if kind == "utset" else rng.randint(1, 90))
@@ -632,7 +632,8 @@ def scale_batch(rng, kinds, tier):
             out.append(scale_hot_keys(rng, kind, 1400 if tier == "quick" else 3000))
             if kind in TTL_KINDS:
                 big = 270 if kind in ("utmap", "utset") else 140      # beyond any batching threshold up to 256
-                out.append(scale_mass_expiry(rng, kind, big if tier == "quick" else rng.choice([140, 270, 300])))
+                for both in (True, False):      # both waves expired / only the first one
+                    out.append(scale_mass_expiry(rng, kind, big if tier == "quick" else rng.choice([140, 270, 300]), both))
             if kind in DETERMINISTIC_RANGE_KINDS:
                 out.append(scale_long_ranges(rng, kind))
             if kind in ("utlru", "utmap"):
